@@ -66,6 +66,8 @@ def valid_case(case):
                 return False
             if x.get('timeout') is not None and x['timeout'] <= 0:
                 return False
+            if not (0 <= x.get('chain', 0) <= 3):
+                return False
         if case['order'] not in ('fwd', 'rev', 'rot') or case['bdur'] < 0 or case['idur'] < 0:
             return False
         for k, v in (case.get('behave') or {}).items():
@@ -283,6 +285,12 @@ def judge_epochs(case, hist):
             done = cur['done']
             if t0 < done - MARGIN:
                 join = True
+            elif c.get('after') is not None and abs(t0 - done) <= MARGIN and \
+                    (c['after'] == cur['first'] or c['after'] in cur['pending_members']):
+                # issued right after its predecessor was answered, and the predecessor is the original caller of
+                # this epoch or joined while it was pending (so it is woken after the original): causally after
+                # "the original caller has been answered", not a tie.  R > 0: inside the window -> joins; R = 0: nothing is remembered.
+                join = R > 0
             elif abs(t0 - done) <= MARGIN:
                 skipped += 1
                 join = r is cur['outcome']
@@ -299,11 +307,13 @@ def judge_epochs(case, hist):
                                  f"{done:.4f} was pending/retained (retention {R}) but got {r!r} instead of {cur['outcome']!r}",
                                  'not-shared'))
                 cur['members'].append(c['i'])
+                if t0 < done - MARGIN:
+                    cur['pending_members'].append(c['i'])   # joined while pending: answered after the original caller
                 continue
             if r is cur['outcome']:
                 out.append(V('stale', f"caller {c['i']} key {k!r} arrived at {t0:.4f}, after the retention window of the request "
                              f"completed at {done:.4f} (retention {R}), yet received the old result {r!r}", 'stale'))
-        eps.append({'first': c['i'], 'outcome': r, 'done': t1, 'members': [c['i']]})
+        eps.append({'first': c['i'], 'outcome': r, 'done': t1, 'members': [c['i']], 'pending_members': []})
     for k, eps in epochs.items():
         cnt = sum(1 for b in hist['batches'] for kk, _ in b['items'] if kk == k)
         if cnt != len(eps) and not skipped:
